@@ -6,7 +6,7 @@ import copy
 import random
 
 from hsverif.core import ddmin
-from hsverif.progmodel import NS, InvalidProgram, run_reference
+from hsverif.progmodel import NS, InvalidProgram, delay_ns, run_reference
 
 TYPES = ["T0", "T1", "T2", "T3", "T4"]
 DT = [0, 0, 0, 1, 999, 1_000_000, NS]
@@ -72,7 +72,11 @@ def _gen_program_once(rng, *, futures, hooks, max_pre):
         value_ids[0] += 1
         if rng.random() < 0.2:
             # any object is a legal value: falsy ones, None, containers, an exception instance used as data
-            return rng.choice([None, 0, "", False, [], [value_ids[0], [1]], ["<exc>", "TimeoutError", f"t/o {value_ids[0]}"], ["<exc>", "KeyError", "k"]])
+            kinds = [None, 0, "", False, [], [value_ids[0], [1]], ["<exc>", "TimeoutError", f"t/o {value_ids[0]}"], ["<exc>", "KeyError", "k"]]
+            if fut_names:
+                # another future object handed over as a plain value (a reply-to future in a mailbox)
+                kinds.append(["<fut>", rng.choice(fut_names)])
+            return rng.choice(kinds)
         return value_ids[0]
 
     def fexpr(depth=0):
@@ -217,6 +221,10 @@ def _gen_program_once(rng, *, futures, hooks, max_pre):
             spec["t"] += start if rng.random() < 0.93 else 0
         if end is not None:
             prog["end_ns"] = end + start
+    # the horizon given as Simulation(duration=seconds) instead of end_time=Instant (also with a start_time)
+    if prog["end_ns"] is not None and prog["end_ns"] >= start and rng.random() < 0.3:
+        prog["use_duration"] = True
+        prog["end_ns"] = start + delay_ns((prog["end_ns"] - start) / NS)  # Instant + float seconds truncates to whole nanoseconds
     return prog
 
 
